@@ -358,6 +358,18 @@ func c09RunConfig(c *Ctx, l *lib.Lean, rng *rand.Rand, k c09Cfg, nmut int, wants
 	if err != nil {
 		return err
 	}
+	// the token to be revoked is presented (and, with auth on, accepted) a few times first, so that
+	// anything remembering an earlier successful lookup is populated before the revocation
+	for i := 0; i < 3; i++ {
+		pre := c09Do(rig, "GET", c09Prefix+"/chain/tip/longest", "", true, "Bearer "+tr.Token)
+		c.R.OracleChecked++
+		if pre.Status != 200 {
+			c.R.Fail(lib.Failure{Case: k.bits() + " live-token-before-revocation", Ops: []string{fmt.Sprintf("c09 %s GET %s/chain/tip/longest live", k.bits(), c09Prefix)},
+				What:     "a freshly issued token is refused on an authenticated route",
+				Expected: "200", Observed: fmt.Sprintf("%d %s", pre.Status, pre.Body),
+				Signature: "c09-live-token-refused"})
+		}
+	}
 	if err := rig.St.Svc.Tokens.DeleteToken(tr.Token); err != nil {
 		return err
 	}
